@@ -316,7 +316,12 @@ class ReturnArrayMessage:
         hdr = ReturnArrayMessageHeader.from_buffer_copy(raw)
         array_type = OptionalInt * hdr.length
         raw = raw[ReturnArrayMessageHeader.len() :]
-        values = list(v.value for v in array_type.from_buffer_copy(raw))
+        # NOTE `OptionalInt.value` is the raw ctypes field (the method of the same name
+        # is shadowed by it), so undefined entries have to be recognized by their type.
+        values = list(
+            None if v.type == OptionalInt._NULL_TYPE else v.value
+            for v in array_type.from_buffer_copy(raw)
+        )
         return cls(address=hdr.address.address, values=values)
 
 
